@@ -1495,6 +1495,27 @@ M("SEED-C18-g", ["C18"], [("@patch", "seeded/C18-g/patch.diff", "")], ["C18/ack/
 M("SEED-C19-g", ["C19"], [("@patch", "seeded/C19-g/patch.diff", "")], ["C19/dead/entry/subscribe"])
 M("SEED-C20-g", ["C20"], [("@patch", "seeded/C20-g/patch.diff", "")], ["C20/block/size-is-a-sum/WithCorrelation"])
 
+# seeds of round 8 (order and lifetime of state: two statements exchanged, a reset one step early / late, state that must be re-initialised per connection)
+M("SEED-C01-h", ["C01"], [("@patch", "seeded/C01-h/patch.diff", "")], ["C01/last/write_all#1"])
+M("SEED-C02-h", ["C02"], [("@patch", "seeded/C02-h/patch.diff", "")], ["C02/final/PubAck/remove-then-report"])
+M("SEED-C03-h", ["C03"], [("@patch", "seeded/C03-h/patch.diff", "")], ["C03/wire/rearmed"])
+M("SEED-C04-h", ["C04"], [("@patch", "seeded/C04-h/patch.diff", "")], ["C04/store/complete-after-flush"])
+M("SEED-C05-h", ["C05"], [("@patch", "seeded/C05-h/patch.diff", "")], ["C05/replay/connect-rearms"])
+M("SEED-C06-h", ["C06"], [("@patch", "seeded/C06-h/patch.diff", "")], ["C06/resume/inflight-counts-every-publish"])
+M("SEED-C07-h", ["C07"], [("@patch", "seeded/C07-h/patch.diff", "")], ["C07/tables/pubrec-success-enters-release-list"])
+M("SEED-C08-h", ["C08"], [("@patch", "seeded/C08-h/patch.diff", "")], ["C08/reset/reader-before-handshake"])
+M("SEED-C09-h", ["C09"], [("@patch", "seeded/C09-h/patch.diff", "")], ["C09/qos/identifier-decision"])
+M("SEED-C10-h", ["C10"], [("@patch", "seeded/C10-h/patch.diff", "")], ["C10/check/inbound-before-expiry"])
+M("SEED-C11-h", ["C11"], [("@patch", "seeded/C11-h/patch.diff", "")], ["C11/entry/drive"])
+M("SEED-C12-h", ["C12"], [("@patch", "seeded/C12-h/patch.diff", "")], ["C12/atomic/connack-properties"])
+M("SEED-C13-h", ["C13"], [("@patch", "seeded/C13-h/patch.diff", "")], ["C13/guard/disconnect_with/Write.flush#1"])
+M("SEED-C14-h", ["C14"], [("@patch", "seeded/C14-h/patch.diff", "")], ["C14/latch/read_packet/fill_packet_reader#1"])
+M("SEED-C15-h", ["C15"], [("@patch", "seeded/C15-h/patch.diff", "")], ["C15/reset/reader-before-handshake"])
+M("SEED-C17-h", ["C17"], [("@patch", "seeded/C17-h/patch.diff", "")], ["C17/used/free-space/scratch_len"])
+M("SEED-C18-h", ["C18"], [("@patch", "seeded/C18-h/patch.diff", "")], ["C18/final-ack/PubComp/remove-then-report"])
+M("SEED-C19-h", ["C19"], [("@patch", "seeded/C19-h/patch.diff", "")], ["C19/qos/per-connection/max_qos"])
+M("SEED-C20-h", ["C20"], [("@patch", "seeded/C20-h/patch.diff", "")], ["C20/target/reply_owned"])
+
 # third round: property-centred behaviour-preserving refactorings (five per property, around that property's anchors)
 for _p in sorted(_glob.glob(_os.path.join(_os.path.dirname(_os.path.abspath(__file__)), "refactors", "rf3", "*.diff"))):
     RF("RF3-" + _os.path.basename(_p)[:-5], ALL19, [("@patch", "selftest/refactors/rf3/" + _os.path.basename(_p), "")])
@@ -1522,6 +1543,7 @@ M("RFM-pass-enum-fresh-first", ["C01"], [("@patch", "selftest/mutants_rf/pass-en
 M("RFM-counter-plain-u16-no-zero-step", ["C07", "C01"], [("@patch", "selftest/mutants_rf/counter-plain-u16-no-zero-step.diff", "")], ["C07/nz/returns-nonzero", "C01/id-nz/returns-nonzero"])
 M("RFM-option-bits-expr-swapped", ["C09", "C01"], [("@patch", "selftest/mutants_rf/option-bits-expr-swapped.diff", "")], ["C09/bits/suboptions/no-local", "C01/bits/suboptions/no-local"])
 M("RFM-publish-dup-bit-expr-wrong", ["C09", "C01"], [("@patch", "selftest/mutants_rf/publish-dup-bit-expr-wrong.diff", "")], ["C09/bits/publish/dup"])
+M("RFM-free-fn-completion-before-flush", ["C13", "C04"], [("@patch", "selftest/mutants_rf/free-fn-completion-before-flush.diff", "")], ["C13/store/complete-after-flush", "C04/store/complete-after-flush"])
 M("RFM-predicates-pending-ignores-generation", ["C18"], [("@patch", "selftest/mutants_rf/predicates-pending-ignores-generation.diff", "")], ["C18/status/table"])
 
 # fourth round: organisational refactorings (guard clauses, sub-borrows, loop forms, private structs, generic helpers)
@@ -1533,7 +1555,7 @@ for _p in sorted(_glob.glob(_os.path.join(_os.path.dirname(_os.path.abspath(__fi
 for _p in sorted(_glob.glob(_os.path.join(_os.path.dirname(_os.path.abspath(__file__)), "refactors", "rf5", "*.diff"))):
     RF("RF5-" + _os.path.basename(_p)[:-5], ALL19, [("@patch", "selftest/refactors/rf5/" + _os.path.basename(_p), "")])
 
-# sixth round: the round-5 (`-e-`) and round-7 (`-g-`) seeds with their hidden defect repaired -- the same clean-up / hardening, behaviour preserved.
+# sixth round: the round-5 (`-e-`), round-7 (`-g-`) and round-8 (`-h-`) seeds with their hidden defect repaired -- the same clean-up / hardening, behaviour preserved.
 # A check that caught the seed only because of the new *shape* raises a false alarm here.
 for _p in sorted(_glob.glob(_os.path.join(_os.path.dirname(_os.path.abspath(__file__)), "refactors", "rf6", "*.diff"))):
     RF("RF6-" + _os.path.basename(_p)[:-5], ALL19, [("@patch", "selftest/refactors/rf6/" + _os.path.basename(_p), "")])
@@ -1574,6 +1596,12 @@ KNOWN_LIMITS = {
                            "(the seed it repairs, where one setter still answers \"found\", fails the same clause)",
                            ["C01/store/flush-after-complete-write", "C04/store/flush-after-complete-write", "C13/store/flush-after-complete-write",
                             "C15/store/flush-after-complete-write"]),
+    "RF6-C17-h-repaired": ("the space needed after compaction is kept in a counter field (`retained_bytes`, maintained by the enqueue, the removal and "
+                           "`clear()`) instead of being summed from the entries: the free-space clauses demand a function of the entries alone "
+                           "(anchored representation; the seed it repairs forgets the reset in `clear()` and fails the same clauses)",
+                           ["C01/used/free-space/", "C02/used/free-space/", "C12/used/free-space/", "C17/used/free-space/"]),
+    "RF6-C20-h-repaired": ("`ResponseTarget::to_owned` is replaced by a constructor `OwnedResponseTarget::capture(topic, correlation)` called from "
+                           "`reply_owned` (the anchor of the `owned` group is deleted)", ["C20/target/reply_owned", "C20/ANCHOR-LOST/owned/"]),
     # round 7: documented limits
     "RF7-G02-01-written-progress-combinators": ("`SendState::set_written(&mut self, written, len)` becomes a pure constructor `after_write(written, len) -> Self` "
                                                 "(a new function, folded into the three setters): the anchor of the `store` group is gone",
